@@ -95,3 +95,45 @@ def fixed_regressions():
         stmt(pr({"e": "call", "fi": 1, "args": [lit(SI, 1), lit(SI, 2)]}))], funs=[f4],
         order=[["t", 0], ["f", 0], ["t", 1]]))
     return out
+
+
+def dcall(dom, op, args, t):
+    return {"e": "dcall", "dom": dom, "op": op, "args": list(args), "t": t}
+
+
+def domain_probe():
+    """Categories with defaults, base domains, parametrised domains (the d.as probe of the design notes)."""
+    x = var("x")
+    cats = [
+        {"name": "CatA", "ops": [{"name": "val", "pts": [], "rt": SI}, {"name": "twice", "pts": [SI], "rt": SI}],
+         "defaults": [{"name": "twice", "ps": ["x"], "pts": [SI], "rt": SI,
+                       "body": prim("si.add", dcall({"d": "self"}, "val", [], SI), x)}]},
+        {"name": "CatB", "ops": [{"name": "get", "pts": [SI], "rt": SI}, {"name": "more", "pts": [SI], "rt": SI}],
+         "defaults": [{"name": "more", "ps": ["x"], "pts": [SI], "rt": SI,
+                       "body": prim("si.mul", dcall({"d": "self"}, "get", [x], SI), lit(SI, 2))}]},
+    ]
+    doms = [
+        {"name": "DA0", "cat": 1, "pcat": 0, "ops": [{"name": "val", "ps": [], "pts": [], "rt": SI, "body": lit(SI, 3)}]},
+        {"name": "DA1", "cat": 1, "pcat": 0, "ops": [
+            {"name": "val", "ps": [], "pts": [], "rt": SI, "body": lit(SI, 5)},
+            {"name": "twice", "ps": ["x"], "pts": [SI], "rt": SI,
+             "body": prim("si.add", lit(SI, 100), dcall({"d": "self"}, "val", [], SI))}]},
+        {"name": "PD", "cat": 2, "pcat": 1, "ops": [
+            {"name": "get", "ps": ["x"], "pts": [SI], "rt": SI,
+             "body": prim("si.add", dcall({"d": "param"}, "twice", [x], SI), lit(SI, 1))}]},
+        {"name": "PE", "cat": 2, "pcat": 1, "ops": [
+            {"name": "get", "ps": ["x"], "pts": [SI], "rt": SI, "body": prim("si.sub", dcall({"d": "param"}, "val", [], SI), x)},
+            {"name": "more", "ps": ["x"], "pts": [SI], "rt": SI,
+             "body": prim("si.add", dcall({"d": "self"}, "get", [x], SI),
+                          dcall({"d": "self"}, "get", [prim("si.add", x, lit(SI, 1))], SI))}]},
+    ]
+    b0, b1 = {"d": "base", "i": 1}, {"d": "base", "i": 2}
+    sp = {"e": "str", "s": " "}
+    top = [
+        stmt(pr(dcall(b0, "twice", [lit(SI, 1)], SI), sp, dcall(b1, "twice", [lit(SI, 1)], SI))),
+        stmt(pr(dcall({"d": "app", "i": 3, "arg": b0}, "get", [lit(SI, 10)], SI), sp,
+                dcall({"d": "app", "i": 3, "arg": b1}, "more", [lit(SI, 10)], SI))),
+        stmt(pr(dcall({"d": "app", "i": 4, "arg": b0}, "get", [lit(SI, 10)], SI), sp,
+                dcall({"d": "app", "i": 4, "arg": b1}, "more", [lit(SI, 10)], SI))),
+    ]
+    return prog("D1_domains_defaults", top, cats=cats, doms=doms)
